@@ -5,6 +5,7 @@ import urlcorr
 import urlpreds
 import pathcorr
 import simplecorr
+import specialcorr
 from lib import hx, unhx
 
 CMP = urlcorr.SPEC_FIELDS
@@ -112,6 +113,8 @@ def check(run):
     pathcorr.explore(run, binp, 6000 if run.tier == "quick" else 120000)
     # the parser's fast path for normalized absolute http(s) URLs, called directly (Model/SimpleAbs.lean)
     simplecorr.explore(run, binp, 8000 if run.tier == "quick" else 160000)
+    # the state machine itself without a base, every scheme but file (Model/ParseSpecial.lean, proved equal to Spec.parse)
+    specialcorr.explore(run, binp, 12000 if run.tier == "quick" else 200000)
     for r in res[-3:]:
         run.sample(urlcorr.describe(r["case"]))
     run.oblige("corr:impl-vs-spec(parse)", True)
